@@ -2,6 +2,8 @@
 
 package actionlint
 
+import "gopkg.in/yaml.v3"
+
 // C07 — diagnostics point at the exact source position.
 
 // HarnessC07Lex: every token's (line, column) equals what its offset implies.
@@ -44,6 +46,8 @@ var verifBadExprs = []struct {
 	{" ]] ", 1}, {" a b ", 3}, {"a..b", 2}, {"(a", 2}, {"a &  b", 3}, {" 0x ", 3}, {"unknown_ctx.x ", 0}, {" foo() ", 1}, {"github.nope ", 0}, {" 1 == github.nope", 6},
 	{"hashFiles('a', null) ", 15}, {"hashFiles('a', 'b', null)", 20}, {"startsWith('a', null)", 16}, {"format('{0}', 1, 2) ", 0},
 	{"github.sha.foo ", 0}, {"!github.nope", 1}, {"(github.nope)", 1}, {"'a' < github", 0},
+	// a diagnostic anchored at an operand that starts with several `!`
+	{" !!github.sha < 1", 1}, {"! !  github.sha >= 10", 0}, {"fromJSON('[1]')[!!github.sha]", 16}, {"!!!github.sha < 1 ", 0},
 	// well-typed but not printable: "object, array, and null values should not be evaluated in template", reported at the ${{
 	{"github.event ", -3}, {" null ", -3},
 }
@@ -161,4 +165,79 @@ func HarnessC07If() {
 	if len(errs) >= 1 {
 		verifCheck(errs[0].Line == line && errs[0].Column == want, "diagnostic-column-is-not-the-offending-token")
 	}
+}
+
+// HarnessC07FrozenAST: rules read positions from the syntax tree they share;
+// none may write to it (a rule that adjusts a *Pos in place shifts the reports
+// of every rule that runs after it). The skeleton workflow — every scalar in
+// turn written in single quotes, double quotes or plain, optionally holding an
+// undefined variable in a placeholder — is parsed, the syntax tree is frozen,
+// and all rules run; any store into the tree is a violation. The report for
+// the placeholder must also sit at the same column offset from the scalar as
+// when the expression rule runs alone.
+func HarnessC07FrozenAST() {
+	doc, sites := verifFullSkeletonSites()
+	site := sites.scalars[verifChoose("scalar", len(sites.scalars))]
+	style := []yaml.Style{0, yaml.SingleQuotedStyle, yaml.DoubleQuotedStyle}[verifChoose("style", 3)]
+	if verifChoose("placeholder", 2) == 1 {
+		site.node.Tag = "!!str"
+		site.node.Value = "x/${{ nosuchvar }}/**"
+	}
+	site.node.Style = style
+	verifPlace(doc, 1, 0)
+	w, perrs := verifParseOnly(doc)
+	if w == nil {
+		verifReach("linted")
+		return
+	}
+	verifFreeze("workflow syntax tree", w)
+	verifVisit(w, perrs, verifRulesNoDeprecated())
+	verifReach("linted")
+}
+
+// HarnessC07Fields: fields that take one placeholder as their whole value
+// (numbers, booleans, `env` / `matrix` given by an expression), written as a
+// quoted scalar with k blanks before the placeholder, at a symbolic position:
+// the undefined variable inside is reported at column + 1 + k + 4.
+func HarnessC07Fields() {
+	s := yScalar
+	k := verifChoose("blanks", 3)
+	val := &yaml.Node{Kind: yaml.ScalarNode, Tag: "!!str", Style: yaml.DoubleQuotedStyle, Value: "   "[:k] + "${{ zzz }}"}
+	field := verifChoose("field", 6)
+	step := []*yaml.Node{s("run"), s("echo")}
+	job := []*yaml.Node{s("runs-on"), s("ubuntu-latest")}
+	strategy := []*yaml.Node{}
+	switch field {
+	case 0:
+		job = append(job, s("timeout-minutes"), val)
+	case 1:
+		step = append(step, s("continue-on-error"), val)
+	case 2:
+		strategy = append(strategy, s("max-parallel"), val)
+	case 3:
+		strategy = append(strategy, s("fail-fast"), val)
+	case 4:
+		job = append(job, s("env"), val)
+	case 5:
+		strategy = append(strategy, s("matrix"), val)
+	}
+	if len(strategy) > 0 {
+		job = append(job, s("strategy"), yMap(strategy...))
+	}
+	job = append(job, s("steps"), ySeq(yMap(step...)))
+	doc := yDoc(yMap(s("on"), s("push"), s("jobs"), yMap(s("j"), yMap(job...))))
+	verifPlace(doc, 1, 0)
+	line, col := verifSymInt("line"), verifSymInt("col")
+	verifAssume(verifAnd(verifAnd(100 <= line, line < 1<<40), verifAnd(1 <= col, col < 1<<40)))
+	val.Line, val.Column = line, col
+	errs := verifLintNode(doc, verifExprRuleOnly())
+	verifReach("checked")
+	n := 0
+	for _, e := range errs {
+		if e.Line == line {
+			n++
+			verifCheck(e.Column == col+1+k+4, "diagnostic-column-is-not-the-offending-token")
+		}
+	}
+	verifCheck(n >= 1, "malformed-placeholder-not-reported-exactly-once")
 }
